@@ -672,6 +672,9 @@ func fixedTexts() []string {
 		"922337203685477580", "922337203685477581", "9223372036854775800", "18446744073709551616", "1.7976931348623157e308", "1.7976931348623159e308", "4.9e-324", "2.4e-324", "2.5e-324",
 		"\xff", "1\xff", "1\x00", "١٢٣", "1²", "½", "0x", "0x.p1", "0x1p", "0x1p-", "+-1", "--1", "++1", "1-", "1+",
 		"9007199254740993", "9007199254740992", "9007199254740994", "72057594037927945", "1.00000000000000011102230246251565404236316680908203125", "1.00000000000000011102230246251565404236316680908203124", "1.00000000000000011102230246251565404236316680908203126",
+		// underscores: long counts (beyond the integer parser's fast path) and every position around
+		// the parts of a float
+		"1_000_000_000_000_000_000", "9_223_372_036_854_775_807", "1_0_0_0_0_0_0_0_0_0_0_0_0", "0000000000000000000_1", "1_e5", "1_E5", "1.5_e3", "12_e-1", "1e_5", "1e5_", "1_.5", "1._5", "0x1_p3", "0x1p_3", "1_000.5", "1e1_0",
 	}
 	for n := 1; n <= 40; n++ {
 		out = append(out, strings.Repeat("9", n), "1"+strings.Repeat("0", n), strings.Repeat("9", n)+".5", "0."+strings.Repeat("0", n)+"1")
